@@ -566,12 +566,17 @@ pub(super) fn apply_label_overlay_to_rows<S: GraphSnapshot>(
                     current_labels.retain(|existing| !labels.iter().any(|label| label == existing));
                 }
 
-                let properties = snapshot
-                    .node_properties(node_id)
-                    .unwrap_or_default()
-                    .iter()
-                    .map(|(k, v)| (k.clone(), convert_api_property_to_value(v)))
-                    .collect();
+                // A node value already in the row carries what the statement wrote so far;
+                // the snapshot does not show that yet.
+                let properties = match row.get(var) {
+                    Some(Value::Node(node)) => node.properties.clone(),
+                    _ => snapshot
+                        .node_properties(node_id)
+                        .unwrap_or_default()
+                        .iter()
+                        .map(|(k, v)| (k.clone(), convert_api_property_to_value(v)))
+                        .collect(),
+                };
 
                 row = row.with(
                     var.clone(),
